@@ -96,7 +96,13 @@ def out_finality_by_value(chk, repo, key, clause):
         if any(pol and fmt(c) == 'is(out, (None))' for c, pol, _ in p.conds):
             continue            # no buffer supplied
         chain = None
-        for e in p.events:
+        before = {}
+        for i, e in enumerate(p.events):
+            before[i] = chain
+            if e.kind == 'note' and e.data.get('rule') == 'except':
+                # the handler runs because a step of the try body did not complete: a buffer write in there is not relied on
+                chain = before.get(e.data.get('start'), None)
+                continue
             if e.kind == 'call' and e.depth == 0 and (e.data.get('bound') or {}).get('out') == out and \
                     repo.has_func(str(e.data.get('callee'))) and e.data.get('result') is not None:
                 chain = e.data.get('result')        # delegated to a function of the package that fills `out` (checked there)
@@ -1187,15 +1193,17 @@ def crossed_arguments_rule(chk, repo, clause, mods):
                     o_name = other.attr if isinstance(other, ast.Attribute) else (other.id if isinstance(other, ast.Name) else None)
                     if other is None or (o_name is not None and o_name.lstrip('_') != at.lstrip('_')):
                         mm.append((p_, at))
-            if mm and len(mm) == 2 and {mm[0][0], mm[0][1]} == {mm[1][0], mm[1][1]}:
-                # two arguments exchanged: harmless exactly when the callee is symmetric in the two parameters
-                a_, b_ = mm[0]
+            if mm and all(a_ in pn and b_ in pn for a_, b_ in mm):
+                # arguments exchanged: harmless exactly when the callee is symmetric in the two parameters
                 try:
                     _, cps, _ = analyse(repo, callee)
-                    swap = {('sym', a_): nf.sym(b_), ('sym', b_): nf.sym(a_)}
                     rs = [q.ret for q in returns(cps)]
-                    if rs and all(r is not None and nf.subst_value(r, swap) == r for r in rs):
-                        mm = []
+                    keep = []
+                    for a_, b_ in mm:
+                        swap = {('sym', a_): nf.sym(b_), ('sym', b_): nf.sym(a_)}
+                        if not (rs and all(r is not None and nf.subst_value(r, swap) == r for r in rs)):
+                            keep.append((a_, b_))
+                    mm = keep
                 except Exception:
                     pass
             if mm and (f.key, callee.key) not in CROSSED_OK:
